@@ -78,8 +78,13 @@ def hash_type_of(world):
 def check_replica_set(world, inner, key, configured, where):
   """C05 on one key."""
   ctx = world.ctx
-  res = list(inner.getDestinations(key))
-  res2 = list(inner.getDestinations(key))
+  try:
+    res = list(inner.getDestinations(key))
+    res2 = list(inner.getDestinations(key))
+  except Exception as e:
+    ctx.violation('C05', 'routing-raises', type(e).__name__,
+                  'getDestinations(%r) raised %r with configured %r' % (key, e, sorted(configured)))
+    return []
   rf = inner.replication_factor
   diverse = inner.diverse_replicas
   servers = set(d[0] for d in configured)
@@ -146,7 +151,12 @@ def check_routing(world, op, dest):
       key = pre[pos]
       check_replica_set(world, inner, key, configured, method)
       if consistent:
-        real_pref = list(inner.ring.get_nodes(key))
+        try:
+          real_pref = list(inner.ring.get_nodes(key))
+        except Exception as e:
+          ctx.violation('C06', 'ring-lookup-raises', type(e).__name__,
+                        'position %d (key %r): get_nodes raised %r' % (pos, key, e))
+          continue
         prefs[pos] = real_pref
         ref_pref = ref.walk(pos)
         if real_pref != ref_pref:
@@ -273,7 +283,11 @@ def ref_rules_route(world, metric, configured):
 
 
 def check_rules_key(world, metric, configured):
-  got = list(world.router.getDestinations(metric))
+  try:
+    got = list(world.router.getDestinations(metric))
+  except Exception as e:
+    world.ctx.violation('C16', 'routing-raises', type(e).__name__, 'getDestinations(%r) raised %r' % (metric, e))
+    return
   exp = ref_rules_route(world, metric, configured)
   if set(got) != exp:
     world.ctx.violation('C16', 'rules-routing-differs', 'rules',
@@ -397,7 +411,11 @@ def agg_rules_of(world):
 def check_aggregated_key(world, metric, configured):
   router = world.router
   inner = world.hash_router
-  got = set(router.getDestinations(metric))
+  try:
+    got = set(router.getDestinations(metric))
+  except Exception as e:
+    world.ctx.violation('C16', 'routing-raises', type(e).__name__, 'getDestinations(%r) raised %r' % (metric, e))
+    return
   aggs = [a for a in (ref_agg_match(r, metric) for r in agg_rules_of(world)) if a is not None]
   if aggs:
     world.ctx.sigs.add('aggmatch:%d' % len(aggs))
